@@ -747,6 +747,14 @@ fn ir_len(sr: u32, fc: f64, k: f64) -> usize {
 	((tau * 24.0 * sr as f64) as usize + 4096).min(3_000_000)
 }
 
+/// stated tolerance of the response comparison: 1e-3 relative + 2e-4 absolute while the requested frequency
+/// is at least fs/1000; below that the binary32 state and coefficients of the trapezoidal integrators lose
+/// precision like fs/fc and the tolerance grows in proportion (e.g. 3.5e-3 at fc = fs/3500)
+fn resp_tol(fc: f64, sr: u32) -> (f64, f64) {
+	let k = (1e-3 * sr as f64 / fc).max(1.0);
+	(1e-3 * k, 2e-4 * k)
+}
+
 struct RespStats {
 	worst_rel: f64,
 	worst_at: String,
@@ -798,7 +806,8 @@ fn sec_filter_response(s: &mut Session, cx: &Ctx, rng: &mut Rng, n_cfg: usize, n
 					continue;
 				}
 				for (f, h) in probes.iter().zip(hs.iter()) {
-					check_response(s, &mut st, "impulse-response DFT", &desc, *f, *h, spec_filter(mode, fc, k, sr as f64, *f), 1e-3, 2e-4);
+					let (tr, ta) = resp_tol(fc, sr);
+					check_response(s, &mut st, "impulse-response DFT", &desc, *f, *h, spec_filter(mode, fc, k, sr as f64, *f), tr, ta);
 				}
 			}
 			None => s.fail(desc.clone(), format!("process panicked: {}", last_panic()), None),
@@ -807,11 +816,12 @@ fn sec_filter_response(s: &mut Session, cx: &Ctx, rng: &mut Rng, n_cfg: usize, n
 		if let Some((hs, _)) = measure_ir(cx, &d, sr, n, &[fc, 1e-3]) {
 			let (hc, h0) = (hs[0].abs(), hs[1].abs());
 			let want_c = if mode == 3 { 0.0 } else { 1.0 / k };
-			if !close(hc, want_c, 2e-3, 3e-4) {
+			let (tr, ta) = resp_tol(fc, sr);
+			if !close(hc, want_c, 2.0 * tr, 1.5 * ta) {
 				s.fail(desc.clone(), format!("gain at the requested cutoff {fc:.3} Hz is {hc:.6}, the design has {want_c:.6} (= 1/k, k = {k:.4})"), None);
 			}
 			let want_0 = if mode == 0 || mode == 3 { 1.0 } else { 0.0 };
-			if !close(h0, want_0, 1e-3, 3e-4) {
+			if !close(h0, want_0, tr, 1.5 * ta) {
 				s.fail(desc.clone(), format!("gain at DC is {h0:.6}, the design has {want_0}"), None);
 			}
 		}
@@ -836,7 +846,8 @@ fn sec_filter_response(s: &mut Session, cx: &Ctx, rng: &mut Rng, n_cfg: usize, n
 		let warm = ir_len(sr, fc, k).min(400_000);
 		s.eval_only("mon_filter_response_sine");
 		if let Some(h) = measure_sine(cx, &d, sr, f, warm, 4096) {
-			check_response(s, &mut st, "steady-state sine", &desc, f, h, spec_filter(mode, fc, k, sr as f64, f), 1e-3, 2e-4);
+			let (tr, ta) = resp_tol(fc, sr);
+			check_response(s, &mut st, "steady-state sine", &desc, f, h, spec_filter(mode, fc, k, sr as f64, f), tr, ta);
 		}
 	}
 	// wet/dry: H sqrt(m) + sqrt(1 - m)
@@ -896,7 +907,8 @@ fn sec_eq_response(s: &mut Session, cx: &Ctx, rng: &mut Rng, n_cfg: usize) {
 					continue;
 				}
 				for (f, h) in probes.iter().zip(hs.iter()) {
-					check_response(s, &mut st, "impulse-response DFT", &desc, *f, *h, spec_eq(kind, fc, gain as f64, q, sr as f64, *f), 1e-3, 2e-4);
+					let (tr, ta) = resp_tol(fc, sr);
+					check_response(s, &mut st, "impulse-response DFT", &desc, *f, *h, spec_eq(kind, fc, gain as f64, q, sr as f64, *f), tr, ta);
 				}
 			}
 			None => s.fail(desc.clone(), format!("process panicked: {}", last_panic()), None),
@@ -912,16 +924,17 @@ fn sec_eq_response(s: &mut Session, cx: &Ctx, rng: &mut Rng, n_cfg: usize) {
 				1 => (want, 1.0),
 				_ => (1.0, want),
 			};
-			if kind == 0 && !close(hc, want, 2e-3, 1e-4) {
+			let (tr, ta) = resp_tol(fc, sr);
+			if kind == 0 && !close(hc, want, 2.0 * tr, ta) {
 				s.fail(desc.clone(), format!("bell gain at the requested centre {fc:.3} Hz is {hc:.6}, requested {gain} dB = {want:.6}"), None);
 			}
-			if kind != 0 && !close(hc, want.sqrt(), 2e-3, 1e-4) {
+			if kind != 0 && !close(hc, want.sqrt(), 2.0 * tr, ta) {
 				s.fail(desc.clone(), format!("shelf gain at the requested corner {fc:.3} Hz is {hc:.6}, the design has half the dB gain there = {:.6}", want.sqrt()), None);
 			}
-			if !close(hl, wl, 2e-3, 1e-4) {
+			if !close(hl, wl, 2.0 * tr, ta) {
 				s.fail(desc.clone(), format!("gain at DC is {hl:.6}, the design has {wl:.6}"), None);
 			}
-			if !close(hh, wh, 2e-3, 1e-4) {
+			if !close(hh, wh, 2.0 * tr, ta) {
 				s.fail(desc.clone(), format!("gain next to Nyquist is {hh:.6}, the design has {wh:.6}"), None);
 			}
 		}
